@@ -79,6 +79,16 @@ func c03Specs() []built {
 		els("a", "area", "base", "link", "blockquote", "del", "ins", "q", "audio", "embed", "iframe", "img", "input", "script", "source", "track", "video"),
 		attrsGlob([]string{"href", "cite", "src", "title"}, ""), opt("AllowUnsafe", true), opt("RequireParseableURLs", true),
 		{Op: "AllowURLSchemes", Names: []string{"http", "https"}}, opt("AllowRelativeURLs", false)}})
+	// boundary shapes of the scheme tables: URL checking on with no scheme ever allowed (with and without relative
+	// URLs), only a scheme pattern, only a scheme with a custom check
+	noSch := []C{base[0], base[1], base[2], base[3]}
+	w := func(more ...C) []C { return append(append([]C{}, noSch...), more...) }
+	out = append(out,
+		spec.Spec{Name: "url-no-schemes-rel1", Base: "new", Calls: w(opt("AllowRelativeURLs", true))},
+		spec.Spec{Name: "url-no-schemes-parseable-only", Base: "new", Calls: w(opt("RequireParseableURLs", true))},
+		spec.Spec{Name: "url-no-schemes-via-nofollow", Base: "new", Calls: w(opt("RequireNoFollowOnLinks", true))},
+		spec.Spec{Name: "url-only-scheme-pattern", Base: "new", Calls: w(opt("RequireParseableURLs", true), C{Op: "AllowURLSchemesMatching", Re: `^(ftp|tel)$`})},
+		spec.Spec{Name: "url-only-custom-scheme", Base: "new", Calls: w(opt("AllowRelativeURLs", true), C{Op: "AllowURLSchemeWithCustomPolicy", Names: []string{"http"}, Fn: "host-example.org"})})
 	// the shipped policy too (implies URL checking through AllowStandardURLs)
 	out = append(out, specByName("ugc"), specByName("cmd-email"))
 	return buildAll(out)
